@@ -793,7 +793,7 @@ func (g *gen) assignable(sc *scope) []variable {
 // stmt generates one statement (possibly compound). New variables are added to sc.
 func (g *gen) stmt(sc *scope, d int) string {
 	g.budget--
-	max := 38
+	max := 41
 	if d <= 0 {
 		max = 12 // only simple statements
 	}
@@ -1212,6 +1212,8 @@ func (g *gen) stmt(sc *scope, d int) string {
 		g.f("errors")
 		return fmt.Sprintf("{\n\tbase := errors.New(%s)\n\twrapped := fmt.Errorf(\"ctx %%d: %%w\", %s, base)\n\tvar e interface{} = wrapped\n\tswitch x := e.(type) {\n\tcase fmt.Stringer:\n\t\tfmt.Println(%q, x.String())\n\tcase error:\n\t\tfmt.Println(%q, x, errors.Is(x, base), errors.Unwrap(x) == base)\n\t}\n}",
 			g.strLit(), g.expr(sc, tInt, 1), g.tag(), g.tag())
+	case 38, 39, 40: // assorted self-contained Go idioms (misc.go)
+		return g.miscIdiom(sc)
 	case 29: // goto forward (no declarations jumped over) / sort
 		if g.chance(50, "sortorgoto") {
 			g.f("sort")
